@@ -284,7 +284,7 @@ pub fn make_plan(rng: &mut Rng, profile: Profile, force_journal: Option<bool>) -
             Profile::Prune => rng.range(1, 2),
             _ => {
                 if journal {
-                    *rng.pick(&[0, 0, 0, 0])
+                    *rng.pick(&[0, 0, 0, 1])
                 } else {
                     0
                 }
@@ -486,7 +486,7 @@ pub fn next_client_op(rng: &mut Rng, plan: &RunPlan, know: &Knowledge, ops_done:
         w[1] = 0;
     }
     if plan.prunes > 0 && plan.cluster.journal {
-        w[12] = 6;
+        w[12] = if plan.profile == Profile::Prune { 25 } else { 6 };
     }
     match rng.pick_weighted(&w) {
         0 => ClientOp::Submit {
@@ -703,6 +703,7 @@ pub struct Budgets {
     pub crashes_left: u32,
     pub late_workers: Vec<u32>,
     pub prunes_left: u32,
+    pub queue_events_left: u32,
 }
 
 /// Enumerates what can happen next. Draws from the RNG for the parameters of generated actions
@@ -895,6 +896,24 @@ pub fn candidates(
                     weight: if busy { 2 } else { 1 },
                 });
             }
+        }
+        if plan.cluster.journal
+            && matches!(plan.profile, Profile::Restore | Profile::Prune | Profile::Kill)
+            && budgets.queue_events_left > 0
+        {
+            let create = world.live_queues.is_empty() || rng.chance(2, 3);
+            out.push(Candidate {
+                action: Action::QueueEvent {
+                    create,
+                    id: if create {
+                        0
+                    } else {
+                        *rng.pick(&world.live_queues)
+                    },
+                },
+                actor: Actor::Membership,
+                weight: 1,
+            });
         }
         if budgets.crashes_left > 0 && plan.cluster.journal {
             let os_len = world.journal_file_len();
